@@ -1024,7 +1024,9 @@ func (p *pipeGen) admitCase() {
 		{32, 128, 24, 16}, {24, 56, 24, 8}, {32, 32, 28, 20}, // floors of one family below the other's
 		{0, 0, 0, 0}, {0, 0, 16, 32}, {32, 128, 0, 0}, {0, 64, 0, 40}} // zeros: ecs.Build's defaults
 	cf := vlib.Pick(r, cfgs)
-	p.op("pipe new %s %d,%d,%d,%d,0", map[bool]string{true: "on", false: "off"}[p.ecs], cf[0], cf[1], cf[2], cf[3])
+	// a third of the cases leave through the real forwarder to a loopback upstream instead of the in-process stub
+	viaFwd := r.Chance(1, 3)
+	p.op("pipe new %s %d,%d,%d,%d,0%s", map[bool]string{true: "on", false: "off"}[p.ecs], cf[0], cf[1], cf[2], cf[3], map[bool]string{true: " fwd", false: ""}[viaFwd])
 	v6 := r.Chance(1, 2)
 	eff := cf
 	if eff[0] == 0 {
@@ -1076,14 +1078,14 @@ func (p *pipeGen) admitCase() {
 		}
 	}
 	flip := ""
-	if r.Chance(1, 12) {
-		flip = " flipcd"
+	if r.Chance(1, 12) || (viaFwd && r.Chance(1, 3)) {
+		flip = " flipcd" // the upstream does not echo the CD bit it was sent
 	}
 	// the response OPT around the ECS option: cookie / NSID / EDE / padding before or after it, or no ECS option at all
 	if r.Chance(1, 2) {
 		flip += " opt=" + vlib.Pick(r, []string{"cS", "nS", "eS", "pS", "Sc", "Se", "cnS", "cSe", "pcnS", "c", "e", "S"})
 	}
-	if r.Chance(1, 10) {
+	if r.Chance(1, 10) && !viaFwd {
 		m, _ := mutate(r, g, []string{"byte", "type", "class", "case"})
 		flip += fmt.Sprintf(" rq=%s,%d,%d", nameTok(m.ls), m.qtype, m.class)
 	}
@@ -1205,7 +1207,7 @@ func (p *pipeGen) allowListCase() {
 func (p *pipeGen) failedResolutionCase() {
 	r := p.r
 	p.ecs = !r.Chance(1, 5)
-	p.op("pipe new %s %s,0", map[bool]string{true: "on", false: "off"}[p.ecs], vlib.Pick(r, []string{"24,56,24,56", "32,128,32,128", "24,56,24,48"}))
+	p.op("pipe new %s %s,0%s", map[bool]string{true: "on", false: "off"}[p.ecs], vlib.Pick(r, []string{"24,56,24,56", "32,128,32,128", "24,56,24,48"}), vlib.Pick(r, []string{"", "", " fwd"}))
 	g := genGid(r)
 	g.scope = netip.Prefix{}
 	for len(g.ls) == 0 {
